@@ -106,7 +106,7 @@ class C15(Check):
     reference_models = ["name -> value model (this file)", "ref/refext4.py xattrs()/xattr_layout()/check() rules R4.xattr"]
 
     def budget(self, tier):
-        return {"runs": 2000, "wall_s": 80} if tier == "quick" else {"runs": 20000, "wall_s": 1500}
+        return {"runs": 2000, "wall_s": 80} if tier == "quick" else {"runs": 12000, "wall_s": 1500}
 
     def generate(self, rng, tier):
         cfg = gen_config(rng, small=True, want=["ext_attr"], avoid=("mmp", "bigalloc", "quota", "project", "has_journal", "orphan_file"))
